@@ -474,7 +474,7 @@ func (s *sim) checkPruned(n *node, oldBase, retain int64, oldIDs map[int64]types
 	// no knowledge of the key layout). The very first height of the store is exempt: its save
 	// also creates the range descriptor and the (empty) commit "for" the height before it.
 	for h := oldBase; h < retain; h++ {
-		if h != s.init {
+		if h != s.init && h > s.leakFloor {
 			for _, k := range s.created[h] {
 				if has, _ := n.bdb.Has([]byte(k)); has {
 					e.Fail("C18", "prune-leak", "after pruning to %d the database still holds key %q that the save of height %d created", retain, k, h)
